@@ -186,6 +186,14 @@ class FeArray(np.ndarray):
         # __add__ and friends, so that the type hierarchy is decided in one place
         elementwise = method == "__call__" and ufunc.signature is None
 
+        # np.matmul(a, b) called as a function follows the same rank rule as `a @ b` (numpy's own
+        # matmul would take a vector field for a stack of matrices whenever nPg matches)
+        if ufunc is np.matmul and method == "__call__" and not kwargs and len(inputs) == 2:
+            left, right = inputs
+            if isinstance(left, FeArray):
+                return FeArray.__matmul__(left, right)
+            return FeArray.__rmatmul__(right, left)
+
         # two fields of the same shape need no alignment and no rewrapping decision; this is
         # the overwhelming majority of calls, and it is what keeps small arrays cheap
         if elementwise and not kwargs and len(inputs) == 2 and ufunc.nout == 1:
@@ -280,7 +288,8 @@ class FeArray(np.ndarray):
         if ndim1 == ndim2 == 1:
             return self.dot(other)
         elif ndim1 == ndim2 == 2:
-            return super().__matmul__(other)
+            # matrices at every Gauss point (or a constant matrix): numpy's stacked product
+            return FeArray.asfearray(np.matmul(np.asarray(self), np.asarray(other)))
         elif ndim1 == 1 and ndim2 == 2:
             return FeArray.asfearray(np.einsum("...i,...ij->...j", self, other))
         elif ndim1 == 2 and ndim2 == 1:
